@@ -131,6 +131,11 @@ func c09Run(c *fw.Ctx, idx int) {
 	}
 	c.SetInput(map[string]any{"geometry": g.String()})
 	t := g.BuildFlat()
+	if c.R.Chance(1, 4) {
+		// measures are planar whatever reference system the geometry claims
+		geom.SetSRID(t, []int{4326, 4269, 3857, 27700, 1}[c.R.Intn(5)])
+		c.Count("geometry_with_an_SRID_set")
+	}
 	m, ok := t.(measurer)
 	if !ok {
 		return
